@@ -1,6 +1,7 @@
 package props
 
 import (
+	"time"
 	"bytes"
 	"encoding/hex"
 	"encoding/json"
@@ -69,12 +70,12 @@ func checkC20(c *Ctx) {
 	defer func() { world.UseOpLog = false }()
 	type job struct {
 		n, t  int
-		shape string // plain | adapted014 | interleaved
+		shape string // plain | adapted014 | interleaved | later-proposal
 		rep   int
 	}
 	var jobs []job
 	for _, nt := range ntCases(c.Pick(3, 4)) {
-		for _, sh := range []string{"plain", "adapted014", "interleaved"} {
+		for _, sh := range []string{"plain", "adapted014", "interleaved", "later-proposal"} {
 			for r := 0; r < c.Pick(3, 20); r++ {
 				jobs = append(jobs, job{nt.N, nt.T, sh, r})
 			}
@@ -133,6 +134,16 @@ func runC20(c *Ctx, n, t int, shape string, seed uint64) {
 	if _, err := old.RunBatch(BatchSpec{Proposer: 0, Data: map[string][]byte{"before": []byte("reinit")}}, world.RandomPolicy); err != nil {
 		c.Inconclusive("orig batch: %v", err)
 		return
+	}
+	if shape == "later-proposal" {
+		// after the round began signing somebody opened another round on the same board (here: abandoned
+		// after a few steps); the dump carries it behind the first signing proposal
+		if _, err := w.StartDKG((int(seed)+1)%n, t, now().Add(time.Minute)); err != nil {
+			c.Inconclusive("later proposal: %v", err)
+			return
+		}
+		w.Run(world.RandomPolicy, 2+r.Intn(3*n))
+		c.Add("dumps_with_a_later_round_opened_after_signing_began", 1)
 	}
 	var adapt func(*types.ReDKG) (*types.ReDKG, error)
 	if shape == "adapted014" {
